@@ -10,7 +10,7 @@ from hypothesis import strategies as st
 
 from hv.core import Campaign, CaseInfo, hta_call, require
 from hv.gen.files import scratch_dir
-from hv.props.cp_common import CPRun, cp_case, edge_objects, topo_longest_path, view
+from hv.props.cp_common import CPRun, cp_case, edge_objects, heaviest_path_ties, topo_longest_path, view
 
 ID = "C19"
 RULE = ("Histories over a graph from the C08 case family: a drawn sequence (1-6 steps) of save+restore cycles, critical_path() "
@@ -81,6 +81,8 @@ def check(case: Dict[str, Any]) -> CaseInfo:
             orig = run.graph
             cur = orig
             base_bd = hta_call("breakdown(original)", lambda: breakdown_rows(orig))
+            if heaviest_path_ties(list(orig.nodes), [(u, v, float(orig.edges[u, v]["weight"])) for u, v in orig.edges]):
+                classes.append("several_equally_heavy_paths")
             diverged = False
             for i, op in enumerate(case["history"]):
                 step = f"step {i} {op[0]}"
@@ -159,6 +161,6 @@ def c19_case(draw):
 
 
 def campaigns(tier: str) -> List[Campaign]:
-    return [Campaign("save_restore", c19_case(), check, quick=160, thorough=2400, quick_shards=8,
-                     required_classes={"cycles=1": 0.1, "cycles=2": 0.1, "cycles=3": 0.05, "reweighted": 0.1},
+    return [Campaign("save_restore", c19_case(), check, quick=640, thorough=9600, quick_shards=8,
+                     required_classes={"cycles=1": 0.1, "cycles=2": 0.1, "cycles=3": 0.05, "reweighted": 0.1, "several_equally_heavy_paths": 0.03},
                      sample_view=lambda c: {**view(c), "history": c["history"]})]
